@@ -403,7 +403,7 @@ func (u *Universe) makeResolver(def *ast.Definition, fd *ast.FieldDefinition, ft
 		case plan.Nil:
 			if !nilable(retT) {
 				atomic.AddInt64(&e.Unrepresentable, 1)
-				return []reflect.Value{u.build(e, retT, nonNull(fd.Type), path), noErr}
+				return []reflect.Value{u.build(e, retT, nonNull(fd.Type), path, shapeOf(ctx)), noErr}
 			}
 			return []reflect.Value{zero, noErr}
 		case plan.Foreign:
@@ -415,7 +415,7 @@ func (u *Universe) makeResolver(def *ast.Definition, fd *ast.FieldDefinition, ft
 			atomic.AddInt64(&e.Unrepresentable, 1)
 		}
 		if stream {
-			return []reflect.Value{u.buildStream(ctx, e, retT, fd.Type, path), noErr}
+			return []reflect.Value{u.buildStream(ctx, e, retT, fd.Type, path, shapeOf(ctx)), noErr}
 		}
 		if e.Echo && fd.Type.Elem == nil && (retT.Kind() == reflect.String || (retT.Kind() == reflect.Ptr && retT.Elem().Kind() == reflect.String)) {
 			first := 1
@@ -447,7 +447,7 @@ func (u *Universe) makeResolver(def *ast.Definition, fd *ast.FieldDefinition, ft
 			}
 			return []reflect.Value{sv, noErr}
 		}
-		return []reflect.Value{u.buildValue(e, retT, fd.Type, path), noErr}
+		return []reflect.Value{u.buildValue(e, retT, fd.Type, path, shapeOf(ctx)), noErr}
 	})
 }
 
@@ -467,7 +467,7 @@ func nilable(t reflect.Type) bool {
 
 // buildStream makes the channel of a subscription resolver: ListLen(path+"@events") events, event
 // n being the value at key path@n.
-func (u *Universe) buildStream(ctx context.Context, e *Exec, chT reflect.Type, t *ast.Type, path string) reflect.Value {
+func (u *Universe) buildStream(ctx context.Context, e *Exec, chT reflect.Type, t *ast.Type, path string, sh Shape) reflect.Value {
 	elemT := chT.Elem()
 	ch := reflect.MakeChan(reflect.ChanOf(reflect.BothDir, elemT), 0)
 	n := e.Plan.ListLen(path + "@events")
@@ -481,7 +481,7 @@ func (u *Universe) buildStream(ctx context.Context, e *Exec, chT reflect.Type, t
 			if o.Kind == plan.Nil && nilable(elemT) {
 				v = reflect.Zero(elemT)
 			} else {
-				v = u.buildValue(e, elemT, t, key)
+				v = u.buildValue(e, elemT, t, key, sh)
 			}
 			chosen, _, _ := reflect.Select([]reflect.SelectCase{
 				{Dir: reflect.SelectSend, Chan: ch, Send: v},
@@ -492,6 +492,10 @@ func (u *Universe) buildStream(ctx context.Context, e *Exec, chT reflect.Type, t
 			}
 			e.Log("S", key, nil)
 		}
+		if e.Plan.Overrides[path+"@events"].Wait == "ctx" {
+			// an endless source: open until the operation's context is cancelled
+			<-ctx.Done()
+		}
 	}()
 	return ch.Convert(chT)
 }
@@ -499,11 +503,55 @@ func (u *Universe) buildStream(ctx context.Context, e *Exec, chT reflect.Type, t
 // buildValue builds the Go value for position key; the outcome at key itself has already been
 // decided to be a value by the caller for top-level resolver results, so Nil is re-checked only for
 // nested positions.
-func (u *Universe) buildValue(e *Exec, goT reflect.Type, t *ast.Type, key string) reflect.Value {
-	return u.buildInner(e, goT, t, key)
+func (u *Universe) buildValue(e *Exec, goT reflect.Type, t *ast.Type, key string, sh Shape) reflect.Value {
+	return u.buildInner(e, goT, t, key, sh)
 }
 
-func (u *Universe) build(e *Exec, goT reflect.Type, t *ast.Type, key string) reflect.Value {
+// Shape is the set of field names an operation selects below a position (merged over aliases,
+// fragments and type conditions, ignoring @skip/@include: a superset of what is marshalled), each
+// with the shape below it. Model structs are only populated along it, so recursive types end where
+// the selection ends. A nil Shape means "populate everything".
+type Shape map[string]Shape
+
+func shapeOf(ctx context.Context) Shape {
+	fc := graphql.GetFieldContext(ctx)
+	oc := graphql.GetOperationContext(ctx)
+	if fc == nil || oc == nil || oc.Doc == nil {
+		return nil
+	}
+	sh := Shape{}
+	// Selections is the merged selection set of all fields collected under this response key
+	addShape(sh, fc.Field.Selections, oc.Doc.Fragments, 0)
+	if fc.Field.Field != nil {
+		addShape(sh, fc.Field.Field.SelectionSet, oc.Doc.Fragments, 0)
+	}
+	return sh
+}
+
+func addShape(sh Shape, sel ast.SelectionSet, frags ast.FragmentDefinitionList, depth int) {
+	if depth > 64 {
+		return
+	}
+	for _, s := range sel {
+		switch s := s.(type) {
+		case *ast.Field:
+			sub := sh[s.Name]
+			if sub == nil {
+				sub = Shape{}
+				sh[s.Name] = sub
+			}
+			addShape(sub, s.SelectionSet, frags, depth+1)
+		case *ast.InlineFragment:
+			addShape(sh, s.SelectionSet, frags, depth+1)
+		case *ast.FragmentSpread:
+			if f := frags.ForName(s.Name); f != nil {
+				addShape(sh, f.SelectionSet, frags, depth+1)
+			}
+		}
+	}
+}
+
+func (u *Universe) build(e *Exec, goT reflect.Type, t *ast.Type, key string, sh Shape) reflect.Value {
 	o := e.Plan.Get(key, !t.NonNull)
 	if o.Kind == plan.Nil {
 		// gqlgen treats a nil slice in a non-null list position as an empty list; plans never ask for it
@@ -520,10 +568,10 @@ func (u *Universe) build(e *Exec, goT reflect.Type, t *ast.Type, key string) ref
 		}
 		atomic.AddInt64(&e.Unrepresentable, 1)
 	}
-	return u.buildInner(e, goT, t, key)
+	return u.buildInner(e, goT, t, key, sh)
 }
 
-func (u *Universe) buildInner(e *Exec, goT reflect.Type, t *ast.Type, key string) reflect.Value {
+func (u *Universe) buildInner(e *Exec, goT reflect.Type, t *ast.Type, key string, sh Shape) reflect.Value {
 	if t.Elem != nil {
 		st := goT
 		ptr := false
@@ -537,7 +585,7 @@ func (u *Universe) buildInner(e *Exec, goT reflect.Type, t *ast.Type, key string
 		n := e.Plan.ListLen(key)
 		s := reflect.MakeSlice(st, n, n)
 		for i := 0; i < n; i++ {
-			s.Index(i).Set(u.build(e, st.Elem(), t.Elem, fmt.Sprintf("%s[%d]", key, i)))
+			s.Index(i).Set(u.build(e, st.Elem(), t.Elem, fmt.Sprintf("%s[%d]", key, i), sh))
 		}
 		if ptr {
 			p := reflect.New(st)
@@ -554,11 +602,11 @@ func (u *Universe) buildInner(e *Exec, goT reflect.Type, t *ast.Type, key string
 	case ast.Scalar, ast.Enum:
 		return u.scalar(e, goT, def, key)
 	case ast.Object:
-		return u.object(e, goT, def, key)
+		return u.object(e, goT, def, key, sh)
 	case ast.Interface, ast.Union:
 		poss := PossibleObjects(u.Schema, def)
 		if len(poss) == 0 {
-			atomic.AddInt64(&e.Unrepresentable, 1)
+			// an interface nothing implements: nil is the only value (the reference expects null)
 			return reflect.Zero(goT)
 		}
 		c := poss[e.Plan.Pick(key, len(poss))]
@@ -566,12 +614,12 @@ func (u *Universe) buildInner(e *Exec, goT reflect.Type, t *ast.Type, key string
 		if !ok {
 			panic("univ: no Go type for " + c.Name)
 		}
-		v := u.object(e, reflect.PtrTo(rt), c, key)
+		v := u.object(e, reflect.PtrTo(rt), c, key, sh)
 		if e.Plan.H(key, "byvalue")%2 == 0 {
 			v = v.Elem() // the generated switch has a case for the value and for the pointer
 		}
 		if !v.Type().AssignableTo(goT) && !v.Type().Implements(goT) {
-			v = u.object(e, reflect.PtrTo(rt), c, key)
+			v = u.object(e, reflect.PtrTo(rt), c, key, sh)
 		}
 		out := reflect.New(goT).Elem()
 		out.Set(v)
@@ -581,7 +629,7 @@ func (u *Universe) buildInner(e *Exec, goT reflect.Type, t *ast.Type, key string
 }
 
 // object builds a model struct (goT is the struct type or a pointer to it).
-func (u *Universe) object(e *Exec, goT reflect.Type, def *ast.Definition, key string) reflect.Value {
+func (u *Universe) object(e *Exec, goT reflect.Type, def *ast.Definition, key string, sh Shape) reflect.Value {
 	st := goT
 	ptr := false
 	if st.Kind() == reflect.Ptr {
@@ -606,7 +654,14 @@ func (u *Universe) object(e *Exec, goT reflect.Type, def *ast.Definition, key st
 		if fd == nil || u.IsResolver(def.Name, name) {
 			continue
 		}
-		v.Field(i).Set(u.build(e, sf.Type, fd.Type, key+"#"+name))
+		var sub Shape
+		if sh != nil {
+			var selected bool
+			if sub, selected = sh[name]; !selected {
+				continue
+			}
+		}
+		v.Field(i).Set(u.build(e, sf.Type, fd.Type, key+"#"+name, sub))
 	}
 	if ptr {
 		return p
